@@ -91,6 +91,8 @@ pub fn tokens(peer_type: &str, tier: Tier) -> Vec<Tok> {
     Tok { name: "HELLO(plain,no-creds)", bytes: frame(cmd, &plain_hello(b"", b"")) },
     Tok { name: "HELLO(plain,wrong-user)", bytes: frame(cmd, &plain_hello(b"mallory", b"guess")) },
     Tok { name: "HELLO(plain,right-user,wrong-pass)", bytes: frame(cmd, &plain_hello(b"user", b"wrong")) },
+    Tok { name: "HELLO(plain,right-user,no-pass)", bytes: frame(cmd, &plain_hello(b"user", b"")) },
+    Tok { name: "HELLO(plain,no-user,right-pass)", bytes: frame(cmd, &plain_hello(b"", b"secret")) },
     Tok { name: "HELLO(curve,own-key)", bytes: frame(cmd, &curve_hello()) },
     Tok { name: "WELCOME", bytes: frame(cmd, b"\x07WELCOME") },
     Tok { name: "WELCOME(curve-shaped)", bytes: frame(cmd, &{ let mut b = b"\x07WELCOME".to_vec(); b.push(6); b.extend_from_slice(b"Cookie"); b.extend_from_slice(&48u32.to_be_bytes()); b.extend_from_slice(&[0x41; 48]); b.resize(136, 0); b }) },
@@ -120,6 +122,9 @@ struct Local {
   is_server: bool,
   allow_zmtp2: bool,
   socket_type: &'static str,
+  /// PLAIN listener only: which of the expected credentials are configured at all (a listener with
+  /// an unconfigured credential has no valid credentials and must refuse everybody)
+  plain_server_has: (bool, bool),
 }
 
 fn peer_type_for(local: &str) -> &'static str {
@@ -150,6 +155,9 @@ fn legit(local: &Local, g: &Greeting, toks: &[&Tok]) -> bool {
 
 fn run_one(local: &Local, g: &Greeting, toks: &[&Tok], token_by_token: bool) -> (Side, u64) {
   let mut sp = spec(local.socket_type, mech_for(local.mech, local.is_server, Creds::Good));
+  if local.mech == MechKind::Plain && local.is_server && local.plain_server_has != (true, true) {
+    sp.mechanism = rzmq::verif::engine::Mech::Plain { username: if local.plain_server_has.0 { Some("user".into()) } else { None }, password: if local.plain_server_has.1 { Some("secret".into()) } else { None } };
+  }
   sp.allow_zmtp2 = local.allow_zmtp2;
   let mut s = Side::from_spec(local.is_server, &sp);
   let gb = g.bytes(v2_code(peer_type_for(local.socket_type)));
@@ -178,7 +186,12 @@ fn locals() -> Vec<Local> {
     for is_server in [true, false] {
       for allow_zmtp2 in [true, false] {
         for socket_type in ["PULL", "ROUTER"] {
-          v.push(Local { mech, is_server, allow_zmtp2, socket_type });
+          v.push(Local { mech, is_server, allow_zmtp2, socket_type, plain_server_has: (true, true) });
+          if mech == MechKind::Plain && is_server && allow_zmtp2 && socket_type == "PULL" {
+            for has in [(true, false), (false, true), (false, false)] {
+              v.push(Local { mech, is_server, allow_zmtp2, socket_type, plain_server_has: has });
+            }
+          }
         }
       }
     }
